@@ -86,6 +86,17 @@ class P:
         for cfg in near:
             sds = ["SD:%s:%s" % (k, hx(n)) for k, n in cfg]
             items.append((" ".join(sds + ["PARSE:" + hx(p) for p in near_programs]), (set(cfg), len(sds), near_programs)))
+        # trees as high as the parser returns them (and one level more, which it must reject): the deepest node is rendered
+        # with its descriptor like every other one
+        lim = 256
+        deep_programs = []
+        for k in (lim - 3, lim - 2, lim - 1, lim):
+            deep_programs += ["!" * k + "a", "- " * k + "a", "[" * k + "a" + "]" * k, "f(" * k + "a" + ")" * k, "{1:" * k + "a" + "}" * k,
+                              "c ? b : " * k + "a", "b = " * k + "a", "[-" * (k // 2) + "a" + "]" * (k // 2), "1 + f(" * (k // 2) + "a" + ")" * (k // 2)]
+        for cfg in ([], [("R", "a")], [("U", "!"), ("U", "-")], [("L", "")], [("F", "f")], [("M", "")], [("T", "")], [("B", "=")],
+                    [("R", "a"), ("U", "!"), ("U", "-"), ("L", ""), ("F", "f"), ("M", ""), ("T", ""), ("B", "="), ("B", "+")]):
+            sds = ["SD:%s:%s" % (k, hx(n)) for k, n in cfg]
+            items.append((" ".join(sds + ["PARSE:" + hx(p) for p in deep_programs]), (set(cfg), len(sds), deep_programs)))
         for cfg in configs:
             sds = ["SD:%s:%s" % (k, hx(n)) for k, n in cfg]
             ps = list(PROGRAMS) if tier != "quick" else rng.sample(PROGRAMS, 12)
